@@ -122,7 +122,9 @@ def to_hashable(data: Any) -> Any:
         return tuple(map(to_hashable, data))
     elif isinstance(data, dict):
         sorted_keys = sorted(data)
-        return tuple(sorted_keys + [to_hashable(data[k]) for k in sorted_keys])
+        # tagged with `dict`, which cannot be an element of JSON data, in order to be
+        # distinguished from the list of keys and values ({} is not [])
+        return (dict, *sorted_keys, *(to_hashable(data[k]) for k in sorted_keys))
     else:
         return data
 
